@@ -37,6 +37,12 @@ class Lib:
         op = name[len('operator'):]
         a0 = args[0]
         t0 = P.ty(a0); c0 = self.tr.category(t0)
+        if op == '<<' and c0 == 'fstream':
+            # `stringstream << x` through the basic_ostream overloads: look through the derived-to-base cast
+            x = a0
+            while x.get('kind') in ('ImplicitCastExpr', 'ParenExpr') and x.get('inner'): x = x['inner'][0]
+            if self.tr.category(P.ty(x)) == 'sstream':
+                a0 = x; t0 = P.ty(x); c0 = 'sstream'
         if c0 in ('ptr', 'carray', 'scalar') and op == '+' and len(args) == 2 and self.tr.category(P.ty(args[1])) in ('str', 'sv'):
             return 'str_concat(%s, %s)' % (self.as_sv(P, a0), self.as_sv(P, args[1]))
         if c0 in ('iter', 'ptr') or (c0 == 'sp' and op in ('==', '!=')):
@@ -356,6 +362,8 @@ class Lib:
             if name == 'operator=' and len(A) == 1: return 'str_assign(%s, %s)' % (objaddr(), self.as_sv(P, A[0]))
             if name == 'compare' and len(A) == 1: return 'sv_compare(str_view(%s), %s)' % (objaddr(), self.as_sv(P, A[0]))
             if name == 'resize' and len(A) == 1: return 'str_resize(%s, %s)' % (objaddr(), P.ex(A[0]))
+            if name == 'find' and len(A) in (1, 2) and self.tr.category(P.ty(A[0])) == 'scalar':
+                return 'str_find_char(%s, (char)(%s), %s)' % (objaddr(), P.ex(A[0]), P.ex(A[1]) if len(A) == 2 else '0')
         if cat == 'riter':
             if name == 'base': return '%s.base' % P.paren(objval())
         if cat == 'stdarray':
@@ -511,6 +519,9 @@ class Lib:
             rest = [a for a in args[1:] if a.get('kind') != 'CXXDefaultArgExpr']
             if rest: raise Unsupported('%s: %s with position/base arguments' % (P.cname, name))
             return '%s(%s)' % (self.THROWING[name], self.as_sv(P, args[0]))
+        if name == 'static_pointer_cast' and len(args) == 1 and self.tr.category(P.ty(args[0])) == 'sp':
+            # shared_ptr<Base> -> shared_ptr<Derived>: single inheritance puts the base sub-object at offset 0 in the C model
+            return '((%s)(%s))' % (self.tr.ctype_t(P.ty(n)), P.ex(args[0]))
         if name == 'exists' and len(args) == 1 and self.tr.category(P.ty(args[0])) == 'opaque':
             return 'g_fs_exists'
         if name == 'count' and len(args) == 3 and self.tr.category(P.ty(args[0])) in ('iter', 'ptr'):
